@@ -305,6 +305,20 @@ class BaseOdeModel(object):
             index = self.get_param_index(key)
             param_value[index] = val
 
+        # an assignment that gives parameters a number supersedes the random
+        # binding recorded for them earlier (which integrate and _jump
+        # re-apply before every run)
+        if parameters is not None and \
+                getattr(self, "_stochasticParam", None) is not None:
+            if not isinstance(parameters, dict):
+                self._stochasticParam = None
+            elif all(isinstance(v, Number) for v in parameters.values()):
+                record = {str(k): v for k, v in self._stochasticParam.items()}
+                record.update({str(k): v for k, v in parameters.items()})
+                if all(isinstance(v, Number) for v in record.values()):
+                    record = None
+                self._stochasticParam = record
+
         self._parameters = param_out
         self._paramValue = param_value
 
